@@ -124,58 +124,8 @@ def run(ctx):
     A.install_cache()
     n_docs = 40 if tier == "quick" else 500
 
-    def gen_emit_doc():
-        """amplitudes over the supported spin structures, both topologies, four lineshape kinds, identical resonances"""
-        ev = ["D0"] + (["K-", "pi+", "pi+", "pi-"] if rng.random() < 0.5 else rng.choice([["pi+", "pi-", "pi+", "pi-"], ["pi+", "pi+", "pi-", "pi-"], ["pi-", "K-", "pi+", "pi+"], ["K+", "K-", "pi+", "pi-"]]))
-        kpi = "K-" in ev and "K+" not in ev
-        doc = [["event_type", ev]]
-        lines = []
-        for _ in range(rng.randint(1, 4)):
-            kind = rng.choice(["VV", "VV-same", "VS", "SS", "AVP", "ASP", "TVP", "PVP", "PSP"])
-            if kpi:
-                V1, S1 = "K*(892)bar0", "KPi00"
-                casc = {"AVP": ("K(1)(1270)bar-", "K*(892)bar0", "pi-", "pi+"), "ASP": ("K(1)(1270)bar-", "KPi00", "pi-", "pi+"),
-                        "TVP": ("K(2)*(1430)bar-", "K*(892)bar0", "pi-", "pi+"), "PVP": ("K(1460)bar-", "K*(892)bar0", "pi-", "pi+"),
-                        "PSP": ("K(1460)bar-", "PiPi10", "K-", "pi+")}
-                if kind == "VV-same":
-                    kind = "VV"
-            else:
-                V1, S1 = "rho(770)0", "PiPi00"
-                casc = {"AVP": ("a(1)(1260)+", "rho(770)0", "pi+", "pi-"), "ASP": ("a(1)(1260)+", "PiPi20", "pi+", "pi-")}
-                if kind in ("TVP", "PVP", "PSP"):
-                    kind = "AVP"
-                if "K+" in ev:
-                    kind = rng.choice(["VV", "VS"])
-            if kind in ("VV", "VV-same", "VS", "SS"):
-                if "K+" in ev:
-                    a, b = "phi(1020)0", rng.choice(["rho(770)0", "PiPi00"] if kind != "VV" else ["rho(770)0", "omega(782)0"])
-                else:
-                    a = V1 if kind in ("VV", "VV-same", "VS") else S1
-                    if kind == "VV-same":
-                        b = a if not kpi else "rho(770)0"
-                    else:
-                        b = rng.choice(["rho(770)0", "rho(1450)0", "omega(782)0"]) if kind == "VV" else rng.choice(["PiPi00", "PiPi10"])
-                    if kind == "VS" and rng.random() < 0.5 and kpi:
-                        a, b = "KPi10", "rho(770)0"
-                spin = rng.choice([None, "S", "P", "D"]) if kind.startswith("VV") else None
-                ds = [A.two_body(rng, a), A.two_body(rng, b)]
-                if rng.random() < 0.3:
-                    ds.reverse()
-                lines.append(["line", ["D", "D0", spin, None, ds]] + A.coupling(rng))
-            else:
-                r3, r2, b3, b4 = casc[kind]
-                wave = rng.choice([None, "D"]) if kind == "AVP" else None
-                ls3 = rng.choice([None, "GSpline.EFF"]) if r3 in ("K(1)(1270)bar-", "a(1)(1260)+", "K(1460)bar-") else None
-                inner = ["D", r3, wave, ls3, [A.two_body(rng, r2), ["D", b3, None, None, []]]]
-                lines.append(["line", ["D", "D0", None, None, [inner, ["D", b4, None, None, []]]]] + A.coupling(rng))
-        doc += lines
-        for nm in ("K(1)(1270)bar-", "a(1)(1260)+", "K(1460)bar-"):
-            doc += [["constant", f"{nm}::Spline::Min", "0.6"], ["constant", f"{nm}::Spline::Max", "3"], ["constant", f"{nm}::Spline::N", "4"]]
-            doc += [["variable", f"{nm}::Spline::Gamma::{k}", "2", "1.0", "0"] for k in range(2)]
-        return doc, ev
-
     for i in range(n_docs):
-        doc, ev = gen_emit_doc()
+        doc, ev = A.gen_emit_doc(rng)
         text = A.render_amp(doc)
         for cls, py in ((GooFitChain, False), (GooFitPyChain, True)):
             case = {"kind": "emit", "text": text, "language": "python" if py else "c++"}
